@@ -85,6 +85,21 @@ def deploy_hwm(res, src):
     return mx
 
 
+def deploy_inflight_hwm(res, src):
+    """High-water mark of run-time deployments of a plugin source that are in progress or open (from the deployment call until
+    the connection is closed or the deployment has failed)."""
+    cur = mx = 0
+    for e in res.get("events") or []:
+        if e["src"] != src:
+            continue
+        if e["kind"] == "deploy-call" and mon._nth(e) >= 2:
+            cur += 1
+            mx = max(mx, cur)
+        elif e["kind"] == "deploy-fail" or (e["kind"] == "conn-close" and cur > 0):
+            cur -= 1
+    return mx
+
+
 def monitor(case, res, sem):
     vs = [v for v in mon.monitor_run(case, res, sem) if v.prop in ("C03", "C02", "C04", "C08")]
     out = []
@@ -218,6 +233,24 @@ def run(check):
              "outcome": {"i%d" % k: {"outcome": "deployfail"} for k in range(nn) if bad[k]}, "n": nn, "par": par, "first_src": "sub_w0", "nested": True}
         case, sem = runfam.build_case("c13-d%04d" % i, g)
         items.append((case, sem, g))
+    # nested loops in which the result of an outer item is decided (by a quick sibling step) while its inner loop is still
+    # deploying its items: the item run ends by closing the inner loop, and only then is its slot free for the next outer item
+    nested_early = []
+    for i in range(check.pick(10, 60)):
+        rng = random.Random(derive_seed(check.seed, "c13-nested-early", i))
+        opar, ipar = rng.choice([1, 1, 2]), rng.choice([1, 2])
+        nouter, ninner = rng.choice([3, 4]), rng.choice([2, 3])
+        inner = gen.sub_program("sub2.yaml", 1)
+        q = gen.plugin_step("q", Expr(In("tag")), src="sub_q")
+        il = Step("inner", "foreach", sub=inner, items=[{"tag": "n%d" % k} for k in range(ninner)], parallelism=ipar)
+        substeps = [q, il]
+        rng.shuffle(substeps)
+        sub = Program(substeps, {"success": {"t": gen.tagref("q")}}, gen.SUB_INPUT, name="sub.yaml")
+        fe = Step("loop", "foreach", sub=sub, items=Expr(In("items")), parallelism=opar)
+        prog = Program([fe], {"success": {"d": Expr(Ref("loop", "outputs", "success", "data"))}, "failed": {"e": Expr(Ref("loop", "failed", "error"))}}, gen.BASE_INPUT)
+        scripts = gen.make_scripts([fe], {})
+        scripts["sub2_w0"]["deploys"] = [{}, {"delay_ms": rng.choice([60, 120])}]
+        nested_early.append(({"id": "c13-ne%04d" % i, "files": prog.files(), "scripts": scripts, "runs": [{"input": {"tag": "T1", "items": [{"tag": "i%d" % k} for k in range(nouter)]}}]}, opar, ipar, nouter))
     # one step registry used for two or three trees whose loops name the same sub-workflow file with different contents: every
     # loop runs the sub-workflow of its own tree
     seq_cases = []
@@ -241,6 +274,30 @@ def run(check):
             check.fail_broken("the hang oracle (Go runtime deadlock report) does not fire in this build")
         out = rn.run_cases([c for c, _s, _g in items], per_case_timeout=90)
         seq_out = rn.run_cases([c for c, _s in seq_cases], per_case_timeout=90)
+        ne_out = rn.run_cases([c for c, _o, _i, _n in nested_early], per_case_timeout=90)
+    for case, opar, ipar, nouter in nested_early:
+        o = ne_out.get(case["id"], {})
+        check.count()
+        if "result" not in o or o["result"].get("prepare_err") or o["result"].get("parse_err"):
+            check.inconclusive_case(case["id"], str(o.get("death", {}).get("key") or o.get("result", {}).get("prepare_err")))
+            continue
+        res = o["result"]
+        run = (res.get("runs") or [{}])[0]
+        shape = "nested loops, outer result decided early (outer parallelism %d, inner %d, %d outer items)" % (opar, ipar, nouter)
+        d = (ref.denum(run.get("data")) or {}).get("d") or []
+        if run.get("out_id") != "success" or [x.get("t") for x in d] != ["sub_q(i%d)" % k for k in range(nouter)]:
+            check.report("loop@nested-early:result", "%s: expected success with the %d item results in order, got %r / %r / %s" % (shape, nouter, run.get("out_id"), run.get("data"), (run.get("err") or "")[:200]), {"case": case})
+        dh = deploy_inflight_hwm(res, "sub2_w0")
+        if dh > opar * ipar:
+            check.report("loop@item-runs-beyond-parallelism", "%s: %d deployments of the inner loop's step were in progress or open at once - more than %d outer item runs can hold" % (shape, dh, opar), {"case": case, "result": runfam.strip(res)})
+        ret = [e["seq"] for e in res.get("events") or [] if e["kind"] == "execute-return"]
+        late = [e for e in res.get("events") or [] if ret and e["seq"] > ret[0] and e["src"] == "sub2_w0" and e["kind"] in ("deploy-ok", "deploy-call", "exec-start", "conn-close")]
+        if late:
+            check.report("loop@nested-early:active-after-return", "%s: the inner loop's step was still being deployed or closed after the run had returned: %s" % (shape, [(e["seq"], e["kind"]) for e in late][:4]),
+                         {"case": case, "result": runfam.strip(res)})
+        if res.get("open_conns"):
+            check.report("loop@nested-early:left-running", "%s: %d plugin connection(s) still open when the run returned" % (shape, res["open_conns"]), {"case": case, "result": runfam.strip(res)})
+        check.nontrivial(shape)
     for case, sems in seq_cases:
         o = seq_out.get(case["id"], {})
         check.count()
@@ -276,6 +333,17 @@ def run(check):
         run = res["runs"][0]
         if g.get("cancelled"):
             stats["cancelled_runs"] += 1
+            if "bug:" in (run.get("err") or "").lower():
+                check.report("loop@cancelled:internal-consistency-error", "loop cancelled while items were running (%s): the run ended with an internal consistency error: %s" % (g["shape"], run["err"][:300]),
+                             {"case": case, "result": runfam.strip(res)})
+            if run.get("out_id") == "failed":
+                # the loop's failure report accounts for every item: each index has a result or a message
+                rep = (ref.denum(run.get("data")) or {}).get("e") or {}
+                have = set(int(k) for k in (rep.get("data") or {})) | set(int(k) for k in (rep.get("errors") or {}))
+                missing = sorted(set(range(g["n"])) - have)
+                if missing:
+                    check.report("loop@cancelled:items-missing-from-report", "loop cancelled while items were running (%s): items %s have neither a result nor a message in the failure report %r" % (g["shape"], missing, rep),
+                                 {"case": case, "result": runfam.strip(res)})
             if run.get("out_id") == "success":
                 check.report("loop@success-after-cancel", "loop cancelled while items were running reported success: %r" % (run.get("data"),), {"case": case, "result": runfam.strip(res)})
             h = hwm(res, g["first_src"])
